@@ -566,15 +566,30 @@ def gen_stream(rng: random.Random, tier: str) -> dict:
     recs = []
     t = 1
     for i in range(rng.choice([1, 4, 12, 40])):
-        t += rng.choice([0, 1, 5, 30, 200, 700])
-        # event time = processing time minus a lag (sometimes large: late events)
-        lag = rng.choice([0, 0, 0, 2, 50, 400, 1500])
+        # event time = processing time minus a lag (sometimes large: late events); sessions get
+        # denser, more out-of-order event times so that open sessions are bridged and merged
+        if wkind == "session":
+            t += rng.choice([0, 1, 5, 30, 80])
+            lag = rng.choice([0, 0, 10, 40, 90, 200, 1500])
+        else:
+            t += rng.choice([0, 1, 5, 30, 200, 700])
+            lag = rng.choice([0, 0, 0, 2, 50, 400, 1500])
         recs.append({"t": t, "key": rng.choice(["a", "b", "c"]), "val": i, "et_ms": max(0, t - lag)})
+    gap = rng.choice([0.03, 0.1, 0.3])
+    if wkind == "session" and rng.random() < 0.5:
+        # two open sessions of one key, then a record whose event time bridges them
+        g = int(gap * 1000)
+        t += rng.choice([1, 50, 2000])
+        k = rng.choice(["a", "b"])
+        n0 = len(recs)
+        recs.append({"t": t, "key": k, "val": n0, "et_ms": t})
+        recs.append({"t": t + 1, "key": k, "val": n0 + 1, "et_ms": t + g + g // 2})
+        recs.append({"t": t + 2, "key": k, "val": n0 + 2, "et_ms": t + (3 * g) // 4})
     return {
         "window": wkind,
         "size": size,
         "slide": rng.choice([size, size / 2, size / 4]),
-        "gap": rng.choice([0.03, 0.3]),
+        "gap": gap,
         "lateness": rng.choice([0.0, 0.0, 0.1, 1.0]),
         "policy": rng.choice(["drop", "side_output", "update"]),
         "watermark_interval": rng.choice([0.05, 0.25, 1.0]),
@@ -659,10 +674,19 @@ def run_stream(case: dict) -> Result:
     if st.events_processed != n:
         res.add("processed-count", comp, shape, f"{st.events_processed} processed, {n} fed")
     lost = []
+    boundary_lost = []
     for r in recs:
         v = r["val"]
         k = len(in_results.get(v, [])) + side_vals.count(v)
         if k == 0:
+            et = r["et_ms"] / 1000.0
+            if wk == "sliding" and abs(et / float(case["slide"]) - round(et / float(case["slide"]))) < 1e-6:
+                # SlidingWindow.assign_windows returns no window for some event times that are float
+                # multiples of the slide (3.5 // 0.05 == 69.0): the record is silently dropped.  Real, but
+                # window assignment is not a clause of C19 -> counted, reported in the notes, not a violation.
+                res.count("sliding_window_boundary_records_in_no_window")
+                boundary_lost.append(v)
+                continue
             lost.append(v)
         if v in in_results and any(key != r["key"] for _, key, _, _ in in_results[v]):
             res.add("record-emitted-under-other-key", comp, shape, f"value {v} key {r['key']}: {in_results[v]}")
